@@ -6,7 +6,9 @@ import re
 from common import Inconclusive, add_violations_from_bad, finish, log
 from statechecks import require_actions, count_events, parse_hist, shard, validate_parallel
 
-ALL_KINDS = ["SN", "IN", "SD", "SC", "AB", "SB", "TB", "CA", "SU", "AR", "SR", "AL", "AA", "AS", "TS", "FIN", "PRE"]
+CORE = ["SN", "IN", "SD", "SS", "SC", "AB", "SB", "TB", "CA", "SU", "AR", "SR", "AL", "AA", "AS", "TS", "FIN", "PRE"]
+TOKEN = ["AB", "SB", "TB", "TR", "AF", "SF", "TF", "BI", "SU", "CA", "FIN"]     # balance / FT / binding calls, amounts at the balance boundary
+ALL_KINDS = CORE + ["TR", "AF", "SF", "TF", "BI"]
 
 GEN_CFG = """SPECIFICATION %(spec)s
 CONSTANTS
@@ -21,8 +23,10 @@ INVARIANTS GenInv %(dump)s
 CHECK_DEADLOCK FALSE
 """
 
-FIELDS = ["existence", "empty", "nonce", "code", "codeSize", "codeHash", "storage", "suicided", "balance", "refund",
-          "logs", "logIndex", "accessAddresses", "accessSlots", "transient"]
+FIELDS = ["existence", "empty", "nonce", "code", "codeSize", "codeHash", "storage", "suicided", "balance",
+          "stateWord", "committedWord", "canTransfer", "ft",
+          "refund", "logs", "logIndex", "accessAddresses", "accessSlots", "transient", "binding", "bindingAccount"]
+NEVER_RESTORED = {"committedWord"}   # GetCommittedState cannot change inside a transaction: nothing to restore
 
 
 def gen(ctx, spec, accts, keys, depth, kinds, runs=0):
@@ -47,15 +51,19 @@ def run(ctx):
     # 2. TLC-generated histories (model -> code)
     gens, hists = [], []
     if quick:
-        plans = [("GenSpec", [1, 2], [1, 2], 4, ALL_KINDS, 0),
+        plans = [("GenSpec", [1, 2], [1], 4, CORE, 0),
+                 # token level: balances, the fungible token, its binding, Transfer; debit amounts from {1, b-1, b, b+1}
+                 ("GenSpec", [1, 2], [1], 4, TOKEN, 0),
                  # account life-cycle / balance alphabet one call deeper (e.g. Suicide; fund again; Snapshot; Suicide; Revert)
                  ("GenSpec", [1], [1], 5, ["SU", "AB", "TB", "SN"], 0),
                  ("DeepSpec", [1, 2], [1, 2], 16, ALL_KINDS, 300)]
     else:
-        plans = [("GenSpec", [1, 2], [1, 2], 4, ALL_KINDS, 0),
+        plans = [("GenSpec", [1, 2], [1, 2], 4, CORE, 0),
+                 ("GenSpec", [1, 2], [1], 4, TOKEN, 0),
+                 ("GenSpec", [1], [1], 5, TOKEN, 0),
                  ("GenSpec", [1, 2], [1], 5, ["SN", "SD", "SC", "CA", "SU", "AL", "FIN"], 0),
-                 ("GenSpec", [1], [1, 2], 5, ["IN", "SD", "SB", "TB", "CA", "SU", "AR", "SR", "AA", "AS", "PRE"], 0),
-                 ("GenSpec", [1], [1], 6, ["SU", "AB", "TB", "SN", "CA", "SB"], 0),
+                 ("GenSpec", [1], [1, 2], 5, ["IN", "SD", "SS", "TB", "CA", "SU", "AR", "SR", "AA", "AS", "PRE"], 0),
+                 ("GenSpec", [1], [1], 6, ["SU", "AB", "TB", "SN", "CA"], 0),
                  ("DeepSpec", [1, 2], [1, 2], 24, ALL_KINDS, 5000)]
     n_exh = 0
     for spec, accts, keys, depth, kinds, runs in plans:
@@ -83,7 +91,7 @@ def run(ctx):
     for tp in traces:
         for k, v in count_events(tp).items():
             kinds[k] = kinds.get(k, 0) + v
-    for k in ALL_KINDS + ["SNAP", "REV", "Final", "Reset"]:
+    for k in ALL_KINDS + ["PRE", "SNAP", "REV", "Final", "Reset"]:
         if not kinds.get(k):
             raise Inconclusive("no %s event was recorded: the check would be vacuous for it" % k)
     # 3. judge every trace against the specification
@@ -96,7 +104,7 @@ def run(ctx):
         add_violations_from_bad(ctx, bad, tp, sig_of=lambda line, event, tag: "%s@%s" % (tag, "Final" if event == "Cut" else event))
     restored = dict(zip(FIELDS, stats[:len(FIELDS)]))
     for f, c in restored.items():
-        if c == 0:
+        if c == 0 and f not in NEVER_RESTORED:
             raise Inconclusive("no revert ever had to restore '%s': the check would be vacuous for that query" % f)
     with open(traces[0]) as f:
         samples = [json.loads(next(f)) for _ in range(6)]
@@ -129,5 +137,8 @@ def run(ctx):
         "the observable projection is taken on a clone (fresh AccountDB on the committed start root + the history prefix), because "
         "the package's getters cache storage values and accountObject.empty() consults that cache",
         "mutators are not judged against a reference (their observed effect is bound); only Snapshot, RevertToSnapshot and the final roots are",
-        "universe: 2 accounts x 2 storage slots x {absent, 2-byte, 40-byte} values, 2 code blobs, one transient key, one access-list slot, 2 tx hashes",
+        "universe: 2 accounts x 2 storage slots x {absent, 2-byte, 40-byte} values, one EVM word slot, 2 code blobs, one transient key, one access-list slot, 2 tx hashes, "
+        "one fungible token other than the native one (own-storage slot until AddERC20Binding routes it to a contract slot); debit amounts (SubBalance, Transfer, SubFT) from {1, b-1, b, b+1} around the model's balance b",
+        "not in the alphabet: Reset/Clean (drop the journal wholesale), Commit inside a history (the chain opens a new AccountDB after it; it ends every history), SetStorage (debug helper over SetData), "
+        "RemoveData (= SetData nil, covered), MarkAccountObjectDirty (internal callback); the tree has no NFT-level mutators on AccountDB",
     ])
